@@ -405,6 +405,11 @@ def long_histories(rng, tier):
     return events
 
 
+def _other(g):
+    rest = sorted((x for x in g.N if x != g.S), key=repr)
+    return rest[0] if rest else g.S
+
+
 def grammar_histories(rng, tier):
     """Queries on a GRAMMAR object (total weights with various tolerances / iteration caps, string weights, prefix
     weights, transformations) after other queries on the same object; every answer is compared with a pristine copy."""
@@ -418,6 +423,10 @@ def grammar_histories(rng, tier):
         "cnf_size": lambda g: repr(len(g.cnf.rules)),
         "trim_size": lambda g: repr(len(g.trim().rules)),
         "null_weight": lambda g: repr(sorted((repr(k), vrepr(v)) for k, v in g.null_weight().items() if v != g.R.zero)),
+        # the sub-language of another nonterminal, taken from a grammar object that was used before
+        "sub_call": lambda g: repr([vrepr(g[_other(g)](s)) for s in fam.strings(g.V, 2)]),
+        "sub_prefix": lambda g: repr([vrepr(g[_other(g)].prefix_weight(s)) for s in fam.strings(g.V, 1)]),
+        "sub_trim_then_trim": lambda g: repr((len(g[_other(g)].trim().rules), len(g.trim().rules), vrepr(g.trim()(())))),
     }
     from fractions import Fraction
     for gi in range(24 if tier == "quick" else 200):
